@@ -193,24 +193,19 @@ Theorem C04_sched_done_never_reexecuted :
 Proof. exact sched_done_never_reexecuted. Qed.
 Print Assumptions C04_sched_done_never_reexecuted.
 
-Theorem C04_sched_errored_task_reruns_refuted :
-  exists tr s, run init tr = Some s /\ execs_after_err s > 0.
-Proof. exact sched_errored_task_reruns_refuted. Qed.
-Print Assumptions C04_sched_errored_task_reruns_refuted.
+Theorem C04_sched_errored_task_never_reruns :
+  forall s,
+  reachable s -> execs_after_err s = 0.
+Proof. exact sched_errored_task_never_reruns. Qed.
+Print Assumptions C04_sched_errored_task_never_reruns.
 
-Theorem C04_sched_errored_task_reruns_same_worker_refuted :
-  exists tr s, run init tr = Some s /\ execs_after_err s > 0 /\ ~ In EWake (skipn 3 tr).
-Proof. exact sched_errored_task_reruns_same_worker_refuted. Qed.
-Print Assumptions C04_sched_errored_task_reruns_same_worker_refuted.
-
-Theorem C04_sched_errored_task_no_rerun_partial :
-  forall tr1 w tr2 s1 s,
-  run init tr1 = Some s1 -> errored s1 = false -> pending s1 = false ->
-  Forall (fun e => e <> EWake) tr2 ->
-  run s1 (EExecDone w XErr :: tr2) = Some s ->
-  errored s = true /\ execs_after_err s = 0.
-Proof. exact sched_errored_task_no_rerun_partial. Qed.
-Print Assumptions C04_sched_errored_task_no_rerun_partial.
+Theorem C04_sched_errored_implies_completed_at_end :
+  forall s,
+  reachable s -> errored s = true ->
+  (n_alive s = 0 -> completed s = true) /\
+  (forall w s', nth_error (workers s) w = Some (WGot XErr) -> step s (EEnd w) = Some s' -> completed s' = true).
+Proof. exact sched_errored_implies_completed_at_end. Qed.
+Print Assumptions C04_sched_errored_implies_completed_at_end.
 
 Theorem C04_sched_cancel_reports :
   forall s,
@@ -346,41 +341,51 @@ Proof. exact stream_progress_measure_decreases. Qed.
 Print Assumptions C04_stream_progress_measure_decreases.
 
 
-(* ---- proofs/BarrierHJProofs.v ---- *)
+(* ---- proofs/BarrierHJThms.v ---- *)
 Theorem C04_hj_inv_parked_implies_flag_unset :
-  forall ab n s,
-  hreach ab false n s ->
+  forall ab nb n s,
+  hreach ab false true nb n s ->
+  (0 < count is_bparked (bps s) -> hready s = false) /\
   (0 < count is_hpscan (hps s) -> sready s = false) /\
-  (0 < count is_hpdrain (hps s) -> dready s = false).
+  (0 < count is_hpdrain (hps s) -> dready s && sready s = false).
 Proof. exact hj_inv_parked_implies_flag_unset. Qed.
 Print Assumptions C04_hj_inv_parked_implies_flag_unset.
 
 Theorem C04_hj_no_error_path :
-  forall ab n s,
-  hreach ab false n s -> count is_herr (hps s) = 0.
+  forall ab nb n s,
+  hreach ab false true nb n s -> count is_berr (bps s) = 0 /\ count is_herr (hps s) = 0.
 Proof. exact hj_no_error_path. Qed.
 Print Assumptions C04_hj_no_error_path.
 
 Theorem C04_hj_no_deadlock_with_limit :
-  forall ab n s,
-  hreach ab false n s -> ~ hall_done s -> exists s', hstep ab false s s' /\ s' <> s.
+  forall ab nb n s,
+  0 < nb -> hreach ab false true nb n s -> ~ hall_done s -> exists s', hstep ab false true s s' /\ s' <> s.
 Proof. exact hj_no_deadlock_with_limit. Qed.
 Print Assumptions C04_hj_no_deadlock_with_limit.
 
 Theorem C04_hj_no_deadlock_nested_limit :
-  forall n s,
-  hreach true false n s -> ~ hall_done s -> exists s', hstep true false s s' /\ s' <> s.
+  forall nb n s,
+  0 < nb -> hreach true false true nb n s -> ~ hall_done s -> exists s', hstep true false true s s' /\ s' <> s.
 Proof. exact hj_no_deadlock_nested_limit. Qed.
 Print Assumptions C04_hj_no_deadlock_nested_limit.
 
 Theorem C04_hj_no_deadlock :
-  forall n s,
-  hreach false false n s -> ~ hall_done s -> exists s', hstep false false s s' /\ s' <> s.
+  forall nb n s,
+  0 < nb -> hreach false false true nb n s -> ~ hall_done s -> exists s', hstep false false true s s' /\ s' <> s.
 Proof. exact hj_no_deadlock. Qed.
 Print Assumptions C04_hj_no_deadlock.
 
+Theorem C04_hj_lost_wakeup_without_drainer_wake_refuted :
+  hreach false false false 1 1 hj_lost_wakeup_state /\
+  count is_hpdrain (hps hj_lost_wakeup_state) = 1 /\
+  dready hj_lost_wakeup_state && sready hj_lost_wakeup_state = true /\
+  count is_bdone (bps hj_lost_wakeup_state) = length (bps hj_lost_wakeup_state) /\
+  forall s', hstep false false false hj_lost_wakeup_state s' -> s' = hmk [BDone] 0 true 0 [HDraining] true true 0.
+Proof. exact hj_lost_wakeup_without_drainer_wake_refuted. Qed.
+Print Assumptions C04_hj_lost_wakeup_without_drainer_wake_refuted.
+
 Theorem C04_hj_drain_deadlock_when_abandon_lost_refuted :
-  hreach true true 2 hj_deadlock_state /\ ~ hall_done hj_deadlock_state /\
-  forall s', hstep true true hj_deadlock_state s' -> s' = hj_deadlock_state.
+  hreach true true true 1 2 hj_deadlock_state /\ ~ hall_done hj_deadlock_state /\
+  forall s', hstep true true true hj_deadlock_state s' -> s' = hj_deadlock_state.
 Proof. exact hj_drain_deadlock_when_abandon_lost_refuted. Qed.
 Print Assumptions C04_hj_drain_deadlock_when_abandon_lost_refuted.
